@@ -49,6 +49,22 @@ def loop_id(node) -> Optional[str]:
     return "loop:" + it[:30]
 
 
+def recursion_wrappers(mod):
+    """prune function for the tracer: an `if` inside function f whose body calls f again and ends in `return`, with no
+    else branch, is a recursion wrapper (f re-entered piecewise - e.g. a chunk replayed minute by minute); the traces of
+    f are those of the base case, so only the fall-through is walked.  What the pieces are is decided by the rules
+    that interpret the function (C02-R7), not by the trace rules."""
+    wrappers = set()
+    for fn in ast.walk(mod.tree):
+        if not isinstance(fn, (ast.FunctionDef, ast.AsyncFunctionDef)):
+            continue
+        for n in ast.walk(fn):
+            if isinstance(n, ast.If) and not n.orelse and n.body and isinstance(n.body[-1], ast.Return) \
+                    and any(isinstance(c, ast.Call) and dotted(c.func) == fn.name for b in n.body for c in ast.walk(b)):
+                wrappers.add(id(n))
+    return lambda node: False if id(node) in wrappers else None
+
+
 def sim_view(repo: Repo, sim: str, want: Set[str], guards: Callable[[ast.AST], Optional[str]] = None,
              stores: Callable[[str], Optional[str]] = None, unroll: int = 1):
     """Return dict(pre=[...], iters=[...], post=[...]) of event tuples.
@@ -71,7 +87,7 @@ def sim_view(repo: Repo, sim: str, want: Set[str], guards: Callable[[ast.AST], O
 
     inl = make_inliner(repo, lambda label: "." not in label.rstrip("()") and last(label) not in LEAVES and last(label) not in want)
     cfg = Cfg(call=call, store=store, guard=guards or (lambda t: None), inline=inl, loop=loop_id, max_depth=4,
-              loop_unroll=unroll)
+              loop_unroll=unroll, prune=recursion_wrappers(mod))
     tr = Tracer(repo, cfg)
     paths = tr.block(fn.body, (mod, None), 0)
     pre: Set[Tuple] = set()
